@@ -185,12 +185,33 @@ def s3(prog, ctx, fns, exc):
             inst = "%s: backward walk `while (%s) %s--`" % (f.name, ctext, v)
             if bounded:
                 ctx.ok("S3", inst, w.where, "the condition carries a lower bound for %s" % v)
-            elif key in tol:
+            elif key in tol and _exception_holds(prog, f, key):
                 ctx.ok("S3", inst, w.where, "tolerated: " + tol[key])
+            elif key in tol:
+                ctx.fail("S3", inst, w.where,
+                         "the sentinel this walk relies on is no longer established by its callers (%s): for a string of blanks it walks off the start of the buffer" % tol[key][:80],
+                         key="backwalk-precondition:" + key)
             else:
                 ctx.fail("S3", inst, w.where, "the pointer is decremented while the pointee matches, with no lower bound: it walks off the start of the buffer",
                          key="backwalk:" + key)
     ctx.floor("C04.S3 backward walks", n, 4)
+
+
+def _exception_holds(prog, f, key):
+    """preconditions of exception rows that rest on what the callers pass"""
+    if f.name == "rtrim":
+        # every caller passes the result of ltrim(): the first character is then not a blank (or the string is empty)
+        from sa import query as q
+        callers = q.callers_of(prog, "rtrim")
+        if not callers:
+            return False
+        for cf, c in callers:
+            a = c.call_args()[0].strip()
+            if not (a.k == "CallExpr" and a.j.get("callee") == "ltrim"):
+                return False
+        lt = prog.fn("ltrim")
+        return any(x.k == "WhileStmt" and "__ctype_b_loc" in render(x.child("cond")) for x in lt.walk())
+    return True
 
 
 def s7(prog, ctx, fns):
@@ -206,6 +227,32 @@ def s7(prog, ctx, fns):
                 tgt = render(up.children[0])
             elif up is not None and up.k == "DeclStmt":
                 tgt = up.j["decls"][0]["name"]
+            # S7b: the new size must not be zero (realloc(p, 0) frees p and returns NULL: the array is lost / freed twice)
+            size = c.call_args()[1]
+            stxt = render(size)
+            positive = bool(re.search(r"\+ [1-9]|\+\+|[1-9]\d* \+", stxt)) or (size.const_value() or 0) > 0
+            if not positive:
+                names = set(x.j["name"] if x.k == "DeclRefExpr" else render(x) for x in size.walk() if x.k in ("DeclRefExpr", "MemberExpr") and x.j.get("ct") not in (None,))
+                cfg = f.cfg
+                guard_ok = False
+                for nm in [render(x) for x in size.walk() if x.is_expr() and x.strip().k in ("DeclRefExpr", "MemberExpr", "UnaryOperator") and x.strip().j.get("sg") is not None]:
+                    okg, cut = cfg.all_paths_cut(cfg.block_of(c), lambda lit, b, i, nm=nm: lit is not None and lit.pol and (
+                        (lit.kind == "lt" and lit.lhs.const_value() == 0 and render(lit.rhs) == nm) or (lit.kind == "truth" and lit.atom == nm)))
+                    if okg and cut:
+                        guard_ok = True
+                if not guard_ok:
+                    # an operand that was incremented on the way (alloc_length++; realloc(alloc_length * size))
+                    for lhs2, rhs2, st2, kind2 in query.stores(f):
+                        if kind2 == "++" and render(lhs2) in stxt and cfg.node_dominates(st2, c):
+                            guard_ok = True
+                if guard_ok:
+                    ctx.ok("S7", inst + ": size is not zero", c.where, "`%s` behind a > 0 test / after an increment" % stxt)
+                else:
+                    ctx.fail("S7", inst + ": size is not zero", c.where,
+                             "the new size `%s` can be zero (e.g. merging two files without entries): realloc(p, 0) frees the block and returns NULL, "
+                             "which the code takes for a live array or a failure to clean up (double free)" % stxt, key="realloc-zero:%s:%s" % (f.name, a0))
+            else:
+                ctx.ok("S7", inst + ": size is not zero", c.where, "`%s` is at least one element" % stxt)
             if tgt is None:
                 ctx.fail("S7", inst, c.where, "the result of realloc() is discarded: the block may have moved and `%s` is stale" % a0, key="realloc:%s:%s" % (f.name, a0))
             elif tgt == a0:
